@@ -76,7 +76,8 @@ func checkRootLeaves(es []Ent, root, leaves []byte, n int, gzipped bool) []strin
 }
 
 // cases: buildrl <leafsize> <ents> | optdir <target> <ents>      -> ok <n> <len md5 root> <len md5 leaves>   (NoCompression, byte exact)
-//        buildrl_gz <leafsize> <ents> | optdir_gz <target> <ents> -> ok                                       (oracle only)
+//
+//	buildrl_gz <leafsize> <ents> | optdir_gz <target> <ents> -> ok                                       (oracle only)
 func c05run(line string) (string, []string) {
 	t := newToks(line)
 	op := t.s()
